@@ -189,6 +189,12 @@ def run(tier, seed):
         inputs.append(("entities", E.render(b["hist"], seed)[0], {}))
     for i, t in enumerate(SPECIAL):
         inputs.append((f"special:{i}", t, {}))
+    # literal-bearing statements (every literal position of C07 x literals the pre-processor treats specially - an escaped quote with an
+    # odd total number of quotes, a doubled quote, separators): whatever the default mode reports for them, every mode reports
+    from . import c07 as L7
+    for lit in ("'it\\'s new'", "'it''s'", "'a (b), c'", "'x = y'", "'plain'"):
+        for pid, (ddl, _) in L7.POS.items():
+            inputs.append((f"literal:{pid}:{lit}", ddl.replace("{L}", lit) + "\n", {}))
     states += gr.distinct + gt.distinct + ge.distinct
     trans += gr.generated + gt.generated + ge.generated
     n1, _ = relate(V, inputs, qmodes, "generated statements")
